@@ -487,6 +487,13 @@ def synthetic_recipes():
                                    {"new_state": 0, "flags": 0x4000 | 0x0800 | 0x03E0, "current_insert_index": 0, "marked_insert_index": 0xFFFF}],
                        "insert_glyphs": [1] * 31}]}]}},
         [[P], [(P, 600)]])
+    # ligatures of ligatures: component counts far beyond 15 per glyph and 255 in total (u8 arithmetic, D54), with marks carried along
+    def lig(first, comps, out, flag=0):
+        return {"type": 4, "flag": flag, "subtables": [{"coverage": [first], "ligsets": [[{"components": comps, "glyph": out}]]}]}
+    R["ligature-of-ligatures"] = ({"num_glyphs": 8, "cmap": "pua", "gdef": {"classes": {1: 1, 2: 2, 3: 2, 4: 2, 5: 3}}, "gsub": {
+        "features": [{"tag": "liga", "lookups": [0, 1, 2]}],
+        "lookups": [lig(1, [1] * 14, 2, 8), lig(2, [2] * 17, 3, 8), lig(3, [3] * 2, 4, 8)]}},
+        [[(P, 270)], [(P, 273)], [(P, 15), P + 4] * 18 + [P + 4], [(P, 270), P + 4, (P, 270), P + 4, (P, 270), P + 4], [(P, 2000)]])
     return R
 
 
